@@ -764,7 +764,7 @@ EXPLANATION = ("Motl.clean_by_distance on the real AST: the loop over groups as 
                "score-sorted candidates by an inductive invariant (kept peaks farther apart than the diameter; every candidate kept or within the diameter of a kept one with an equal or higher score; inner loop over the "
                "ball-query result executed in guarded mode and lifted to all members), and the bookkeeping block (every kept candidate becomes a particle with its score, voxel index + 1 and the Euler angles of the "
                "angle-list row its angle-map entry minus the numbering base points to, index safety of both lookups). The function's prefix (threshold, np.where, argpartition / argsort, sorted) is not under contract: "
-               "the blocks' requires (candidates = exactly the voxels above the threshold, sorted by decreasing score, pairwise different, carrying their voxel's score) are monitored on every real call of the bounded run, "
+               "the angle list comes from ioutils.rot_angles_load, which is under its own contract (rows (phi, theta, psi) for both orders, array or csv source, the argument array unchanged); the blocks' requires (candidates = exactly the voxels above the threshold, sorted by decreasing score, pairwise different, carrying their voxel's score) are monitored on every real call of the bounded run, "
                "which also checks all clauses end to end on generated maps (incl. thresholds equal to a voxel value).")
 ASSUMPTIONS = ["exact-distance ties are excluded (requires, as in the property's quantifier); plateau-free scores (requires, as in the quantifier); real arithmetic for distances and scores",
                "assumed callee contracts: np.argsort (ascending permutation with inverse), np.unique(column) iterated as an arbitrary group value, Motl.get_motl_subset (rows of the group in order, index reset; proved under C08), "
